@@ -106,7 +106,7 @@ pub fn dump_expr(e: &Expr, out: &mut Vec<String>) {
             dump_expr(c, out);
         }
         Expr::Repeat { child, lo, hi, greedy } => {
-            out.push(format!("R{}:{}:{}", lo, us(*hi), *greedy as u8));
+            out.push(format!("R{}:{}:{}", us(*lo), us(*hi), *greedy as u8));
             dump_expr(child, out);
         }
         Expr::Delegate { inner, size, casei } => {
@@ -149,10 +149,10 @@ pub fn insn_string(i: &Insn) -> String {
         Insn::Save(s) => format!("Save({})", s),
         Insn::Save0(s) => format!("Save0({})", s),
         Insn::Restore(s) => format!("Restore({})", s),
-        Insn::RepeatGr { lo, hi, next, repeat } => format!("RepeatGr({},{},{},{})", lo, us(*hi), next, repeat),
-        Insn::RepeatNg { lo, hi, next, repeat } => format!("RepeatNg({},{},{},{})", lo, us(*hi), next, repeat),
-        Insn::RepeatEpsilonGr { lo, next, repeat, check } => format!("RepeatEpsilonGr({},{},{},{})", lo, next, repeat, check),
-        Insn::RepeatEpsilonNg { lo, next, repeat, check } => format!("RepeatEpsilonNg({},{},{},{})", lo, next, repeat, check),
+        Insn::RepeatGr { lo, hi, next, repeat } => format!("RepeatGr({},{},{},{})", us(*lo), us(*hi), next, repeat),
+        Insn::RepeatNg { lo, hi, next, repeat } => format!("RepeatNg({},{},{},{})", us(*lo), us(*hi), next, repeat),
+        Insn::RepeatEpsilonGr { lo, next, repeat, check } => format!("RepeatEpsilonGr({},{},{},{})", us(*lo), next, repeat, check),
+        Insn::RepeatEpsilonNg { lo, next, repeat, check } => format!("RepeatEpsilonNg({},{},{},{})", us(*lo), next, repeat, check),
         Insn::FailNegativeLookAround => "FailNLA".into(),
         Insn::GoBack(n) => format!("GoBack({})", us(*n)),
         Insn::Backref(s) => format!("Backref({})", s),
